@@ -2,28 +2,130 @@
 
 package lua
 
-// C06.transfer — values move between resume and yield exactly as the manual says.
+// ---- C06: coroutine laws. No general coroutine oracle: each template's expected trace is derived
+// by hand from the Lua 5.1 manual (section 2.11 and 5.2) and written next to it. ----
+
+type c06law struct {
+	src  string
+	want func(x, y float64) []LValue
+}
+
+func n_(f float64) LValue { return LNumber(f) }
+func s_(s string) LValue  { return LString(s) }
+
+var c06Laws = []c06law{
+	// first resume arguments are the body's arguments; yield payload = resume results; next resume
+	// arguments = yield results; return values = last resume results
+	{`local co = coroutine.create(function(a, b) local c, d = coroutine.yield(a + 1, b); local e = coroutine.yield(); return c, d, e end)
+	  emit(coroutine.resume(co, x, y)); emit(coroutine.resume(co, y, x)); emit(coroutine.resume(co, 7)); emit(coroutine.resume(co)); emit(coroutine.status(co))`,
+		func(x, y float64) []LValue {
+			return []LValue{sep, LTrue, n_(x + 1), n_(y), sep, LTrue, sep, LTrue, n_(y), n_(x), n_(7), sep, LFalse, s_("cannot resume dead coroutine"), sep, s_("dead")}
+		}},
+	// payload counts 0..3, nil padding on the receiving side
+	{`local co = coroutine.wrap(function(...) local n = select('#', ...); local a, b, c = coroutine.yield(n); emit(a, b, c); local p = coroutine.yield(); emit(p); return 1, 2, 3 end)
+	  emit(co(x, nil, nil)); emit(co(y)); emit(co())`,
+		func(x, y float64) []LValue {
+			return []LValue{sep, n_(3), sep, n_(y), LNil, LNil, sep, sep, LNil, sep, n_(1), n_(2), n_(3)}
+		}},
+	// status transitions incl. normal and running; running()
+	{`local A, B
+	  A = coroutine.create(function() emit(coroutine.status(A)); B = coroutine.create(function() emit(coroutine.status(A), coroutine.status(B)); coroutine.yield(); emit('b2') end); coroutine.resume(B); emit(coroutine.status(B)); coroutine.yield(); emit(coroutine.status(A)) end)
+	  emit(coroutine.status(A)); coroutine.resume(A); emit(coroutine.status(A), coroutine.status(B)); coroutine.resume(A); emit(coroutine.status(A)); emit(coroutine.running())`,
+		func(x, y float64) []LValue {
+			return []LValue{sep, s_("suspended"), sep, s_("running"), sep, s_("normal"), s_("running"), sep, s_("suspended"), sep, s_("suspended"), s_("suspended"), sep, s_("running"), sep, s_("dead"), sep, LNil}
+		}},
+	// an error kills only that coroutine; the resumer's locals survive; wrap re-raises
+	{`local keep = x
+	  local co = coroutine.create(function() local v = y; coroutine.yield(v); error({code = v}) end)
+	  emit(coroutine.resume(co)); local ok, e = coroutine.resume(co); emit(ok, type(e), e.code, coroutine.status(co), keep)
+	  local w = coroutine.wrap(function() error(x) end); local ok2, e2 = pcall(w); emit(ok2, e2, keep)`,
+		func(x, y float64) []LValue {
+			return []LValue{sep, LTrue, n_(y), sep, LFalse, s_("table"), n_(y), s_("dead"), n_(x), sep, LFalse, n_(x), n_(x)}
+		}},
+	// a run-time fault inside the body (same frame as a captured local): closure handed out survives
+	{`local f
+	  local co = coroutine.create(function() local v = x; f = function() return v end; local t = nil; return t.k end)
+	  local ok = coroutine.resume(co); local function junk(a, b, c, d) return d end; junk(1, 2, 3, 4)
+	  emit(ok, coroutine.status(co), f())`,
+		func(x, y float64) []LValue { return []LValue{sep, LFalse, s_("dead"), n_(x)} }},
+	// locals, loop state and upvalues are kept across suspensions; generator driving for-in
+	{`local function gen(n) return coroutine.wrap(function() for i = 1, n do coroutine.yield(i, i * x) end end) end
+	  for i, v in gen(3) do emit(i, v) end
+	  local acc = 0; local co = coroutine.wrap(function() local s = y; while true do s = s + 1; acc = acc + s; coroutine.yield(s) end end); co(); co(); emit(co(), acc)`,
+		func(x, y float64) []LValue {
+			return []LValue{sep, n_(1), n_(1 * x), sep, n_(2), n_(2 * x), sep, n_(3), n_(3 * x), sep, n_(y + 1 + 1 + 1), n_(0 + (y + 1) + (y + 1 + 1) + (y + 1 + 1 + 1))}
+		}},
+	// nested resumes: values pass through two levels; inner death reported to its resumer only
+	{`local inner = coroutine.create(function(a) local b = coroutine.yield(a * 2); error(b) end)
+	  local outer = coroutine.create(function(a) local ok, v = coroutine.resume(inner, a); local r = coroutine.yield(v); local ok2, e = coroutine.resume(inner, r); return ok2, e, coroutine.status(inner) end)
+	  emit(coroutine.resume(outer, x)); emit(coroutine.resume(outer, y)); emit(coroutine.status(outer))`,
+		func(x, y float64) []LValue {
+			return []LValue{sep, LTrue, n_(x * 2), sep, LTrue, LFalse, n_(y), s_("dead"), sep, s_("dead")}
+		}},
+	// resuming a running or dead coroutine fails without side effects; yield outside a coroutine fails
+	{`local co; co = coroutine.create(function() emit(coroutine.resume(co)); return x end)
+	  emit(coroutine.resume(co)); emit((coroutine.resume(co))); emit((pcall(coroutine.yield, 1)))`,
+		func(x, y float64) []LValue {
+			return []LValue{sep, LFalse, s_("cannot resume running coroutine"), sep, LTrue, n_(x), sep, LFalse, sep, LFalse}
+		}},
+	// a host (Go) function body and a tail-called yield
+	{`local co = coroutine.create(function(a) return coroutine.yield(a + 1) end)
+	  emit(coroutine.resume(co, x)); emit(coroutine.resume(co, y, 3)); emit(coroutine.status(co))`,
+		func(x, y float64) []LValue {
+			return []LValue{sep, LTrue, n_(x + 1), sep, LTrue, n_(y), n_(3), sep, s_("dead")}
+		}},
+	// fewer values resumed than the pending yield expects: padded with nil
+	{`local co = coroutine.create(function() local a, b, c = coroutine.yield(); emit(a, b, c); return 'done' end)
+	  coroutine.resume(co); emit(coroutine.resume(co, x))`,
+		func(x, y float64) []LValue { return []LValue{sep, n_(x), LNil, LNil, sep, LTrue, s_("done")} }},
+	// wrap: error kills the coroutine; calling it again is an error ("dead")
+	{`local w = coroutine.wrap(function() coroutine.yield(x); error('boom') end)
+	  emit(w()); emit((pcall(w))); emit((pcall(w)))`,
+		func(x, y float64) []LValue { return []LValue{sep, n_(x), sep, LFalse, sep, LFalse} }},
+	// resume of a wrapped coroutine through its thread handle
+	{`local th; local w = coroutine.wrap(function() th = coroutine.running(); coroutine.yield(1); coroutine.yield(x); return y end)
+	  emit(w()); emit(coroutine.resume(th)); emit(w()); emit(coroutine.status(th))`,
+		func(x, y float64) []LValue {
+			return []LValue{sep, n_(1), sep, LTrue, n_(x), sep, n_(y), sep, s_("dead")}
+		}},
+}
+
+var sep LValue = LString("\x00sep")
+
+// C06.laws — coroutine value transfer, status and error laws with symbolic payloads.
 //
-//verif:harness prop=C06 tier=quick bounds="1 coroutine, 2 resumes, symbolic float64 payloads"
-func H_C06_transfer() {
+//verif:harness prop=C06 tier=quick bounds="12 law templates (<= 3 coroutines, <= 6 resumes each): transfer in both directions with 0..3 values, status incl. normal/running, errors and faults inside coroutines, wrap, generators, nested resumes, dead/running resume, tail-called yield; payloads 2 symbolic float64"
+func H_C06_laws() {
+	k := VChoice(len(c06Laws))
+	law := c06Laws[k]
 	L := newL(Options{}, BaseLibName, CoroutineLibName)
-	a, b := VFloat("a"), VFloat("b")
-	L.G.Global.RawSetString("x", LNumber(a))
-	L.G.Global.RawSetString("y", LNumber(b))
-	err := loadRun(L, `
-	local co = coroutine.create(function(p) local q = coroutine.yield(p, p); return q, p end)
-	local s0 = coroutine.status(co)
-	local ok1, r1, r2 = coroutine.resume(co, x)
-	local s1 = coroutine.status(co)
-	local ok2, r3, r4 = coroutine.resume(co, y)
-	local ok3, m = coroutine.resume(co)
-	return ok1, r1, r2, ok2, r3, r4, coroutine.status(co), s0, s1, ok3`, 10)
-	VAssert(err == nil, "transfer: runs")
-	VAssert(L.Get(1) == LTrue && L.Get(4) == LTrue, "transfer: resumes succeed")
-	VAssert(sameValue(L.Get(2), LNumber(a)) && sameValue(L.Get(3), LNumber(a)), "transfer: yield payload is what resume returns")
-	VAssert(sameValue(L.Get(5), LNumber(b)), "transfer: resume argument is what yield returns")
-	VAssert(sameValue(L.Get(6), LNumber(a)), "transfer: body keeps its local across the suspension")
-	VAssert(L.Get(7) == LString("dead") && L.Get(8) == LString("suspended") && L.Get(9) == LString("suspended"), "transfer: status sequence")
-	VAssert(L.Get(10) == LFalse, "transfer: resuming a dead coroutine fails")
+	x, y := VFloat("x"), VFloat("y")
+	L.G.Global.RawSetString("x", LNumber(x))
+	L.G.Global.RawSetString("y", LNumber(y))
+	var trace []LValue
+	L.G.Global.RawSetString("emit", L.NewFunction(func(L *LState) int {
+		trace = append(trace, sep)
+		for i := 1; i <= L.GetTop(); i++ {
+			trace = append(trace, L.Get(i))
+		}
+		return 0
+	}))
+	label := "law " + itoa(k)
+	err := loadRun(L, law.src, 0)
+	VAssert(err == nil, label+": runs without an escaping error")
+	want := law.want(x, y)
+	VAssert(len(trace) == len(want), label+": number of values observed")
+	if len(trace) == len(want) {
+		for i := range want {
+			if ws, ok := want[i].(LString); ok && ws != sep.(LString) && len(ws) > 12 {
+				// error message texts are not compared, only that a message is delivered
+				_, isStr := trace[i].(LString)
+				VAssert(isStr, label+": an error message is delivered")
+				continue
+			}
+			VAssert(sameValue(trace[i], want[i]), label+": value "+itoa(i)+" of the observed trace")
+		}
+	}
+	VAssert(L.G.CurrentThread == L, label+": control is back in the main thread")
 	VReach("end")
 }
